@@ -168,6 +168,9 @@ def _atom_from_stream(f: BinaryIO, b: int, new_atom_f: NEW_ATOM_F) -> CLVMStorag
         bit_count += 1
         b &= 0xFF ^ bit_mask
         bit_mask >>= 1
+    if bit_count > 6:
+        # the size prefix is at most 6 bytes, like in the rust implementation
+        raise ValueError("bad encoding")
     size_blob = bytes([b])
     if bit_count > 1:
         blob = f.read(bit_count - 1)
